@@ -489,6 +489,7 @@ def run(ch: Checker) -> None:
             bad = ('interception is not configured but _tls_intercept_enabled returns %s' % rv[:60], p.describe())
     brk = any(isinstance(l, ast.For) and any(isinstance(b, ast.Break) for b in walk_no_nested(l)) for l in walk_no_nested(tie.node))
     ch.check(bad is None and n > 0 and brk, 'C11.7', tie, 'opt-out', 'plugin opt-out ends the loop and is returned', bad[0] if bad else 'the plugin loop does not stop at the first opt-out', witness=bad[1] if bad else None)
+    ch.import_rules('C04', {'C04.12': 'C11.14'}, 'requests decrypted out of an intercepted tunnel reach the origin only if the credentials that admitted the CONNECT are not asked for again inside the TLS session, where a client never sends them')
 
 
 def _who_reads_flags_only(ch: Checker) -> None:
